@@ -1112,6 +1112,8 @@ func (r *Runner) Run(bi int, b *Behaviour, st *Stats) ([]Mismatch, error) {
 				carrying = true
 				continue
 			}
+		case "setstr":
+			cmd = []string{"SET", r.key, ids[h.O-1], "STRING", "some text"}
 		case "fset":
 			cmd = []string{"FSET", r.key, ids[h.O-1], sc.Field, strconv.Itoa(h.V)}
 		case "del":
